@@ -1268,4 +1268,99 @@ theorem tail_step (i : Nat) (hi : i < 7) (r' : Rx) (rs : List Rx)
         ⟨g, rest, rfl, (group_iff i g).mpr (Or.inr ⟨tok, hg⟩), (ih rest).mpr ⟨_, ht⟩⟩⟩
 
 
+
+/-! ## deepening round D: small helpers of the property theorems -/
+
+theorem pairwise_head_le (l : List Sample) (h : l.Pairwise (fun x y => x.1 ≤ y.1)) (x y : Sample)
+    (hy : l.head? = some y) (hx : x ∈ l) : y.1 ≤ x.1 := by
+  cases l with
+  | nil => simp at hy
+  | cons z zs =>
+    simp only [List.head?_cons, Option.some.injEq] at hy
+    subst hy
+    rcases List.mem_cons.mp hx with hx | hx
+    · subst hx; exact Int.le_refl _
+    · exact (List.pairwise_cons.mp h).1 x hx
+
+theorem pairwise_le_last (l : List Sample) (h : l.Pairwise (fun x y => x.1 ≤ y.1)) (x y : Sample)
+    (hy : l.getLast? = some y) (hx : x ∈ l) : x.1 ≤ y.1 := by
+  induction l with
+  | nil => simp at hx
+  | cons z zs ih =>
+    cases zs with
+    | nil =>
+      simp at hy hx; subst hy; subst hx; exact Int.le_refl _
+    | cons w ws =>
+      have hp := List.pairwise_cons.mp h
+      have hy' : (w :: ws).getLast? = some y := by simpa [List.getLast?_cons_cons] using hy
+      rcases List.mem_cons.mp hx with hx | hx
+      · subst hx
+        exact hp.1 y (List.mem_of_getLast? hy')
+      · exact ih hp.2 hy' hx
+
+theorem pairwise_map_fst (ts : List Int) (h : ts.Pairwise (· ≤ ·)) :
+    (ts.map fun x => ((x, x) : Sample)).Pairwise (fun x y => x.1 ≤ y.1) := by
+  rw [List.pairwise_map]; exact h
+
+/-- An independent reading of "keeps exactly the masked samples": the samples at the positions `i` whose flag
+    `m[i]` is set, in increasing order of `i`. -/
+def maskSpec (l : List Sample) (m : List Bool) : List Sample :=
+  ((List.range l.length).filter (fun i => m.getD i false)).filterMap (fun i => l[i]?)
+
+theorem zipMask_eq (l : List Sample) (m : List Bool) (h : l.length = m.length) :
+    ((l.zip m).filterMap fun (s, k) => if k then some s else none) = maskSpec l m := by
+  induction l generalizing m with
+  | nil => simp [maskSpec]
+  | cons x xs ih =>
+    cases m with
+    | nil => simp at h
+    | cons k ks =>
+      have h' : xs.length = ks.length := by simpa using h
+      have ih' := ih ks h'
+      unfold maskSpec at ih' ⊢
+      simp only [List.zip_cons_cons, List.filterMap_cons, List.length_cons, List.range_succ_eq_map,
+        List.filter_cons, List.filter_map, List.filterMap_map]
+      have e1 : ((fun i => (k :: ks).getD i false) ∘ Nat.succ) = fun i => ks.getD i false := by
+        funext i; simp
+      have e2 : ((fun i => (x :: xs)[i]?) ∘ Nat.succ) = fun i => xs[i]? := by
+        funext i; simp
+      cases k
+      · simp [e1, e2, ih', Function.comp_def]
+      · simp [e1, e2, ih', Function.comp_def]
+
+theorem body_not_minus (body : List Char) (toks : List Tok) (h : BodyMatch body toks) (r : List Char) :
+    body ≠ '-' :: r := by
+  intro he
+  obtain ⟨gs, post, hcs, hc, _⟩ := canon_of_body body toks h
+  obtain ⟨hwf, hp⟩ := canonTail_wf 0 gs post hc.1
+  have := strsG_head gs post hwf hp '-' r (by rw [← hcs, he])
+  revert this; decide
+
+/-- positional value of a digit string, most significant digit first -/
+def decValue : List Char → Nat
+  | [] => 0
+  | c :: cs => digitVal c * 10 ^ cs.length + decValue cs
+
+theorem foldl_digits (ds : List Char) (acc : Nat) :
+    ds.foldl (fun acc c => acc * 10 + digitVal c) acc = acc * 10 ^ ds.length + decValue ds := by
+  induction ds generalizing acc with
+  | nil => simp [decValue]
+  | cons c cs ih =>
+    simp only [List.foldl_cons, ih, decValue, List.length_cons, Nat.pow_succ]
+    rw [Nat.add_mul, Nat.mul_assoc, Nat.mul_comm 10 (10 ^ cs.length), Nat.add_assoc]
+
+/-- First and last timestamp of a non-empty continuous channel: `start` and `stop - dt`. -/
+theorem samplesFrom_ends (dt : Int) (v : Int) (vs : List Int) (t0 : Int) :
+    (samplesFrom t0 dt (v :: vs)).head?.map (·.1) = some t0 ∧
+    (samplesFrom t0 dt (v :: vs)).getLast?.map (·.1) = some (t0 + vs.length * dt) := by
+  refine ⟨rfl, ?_⟩
+  induction vs generalizing t0 v with
+  | nil => simp [samplesFrom]
+  | cons w ws ih =>
+    have := ih w (t0 + dt)
+    simp only [samplesFrom] at this ⊢
+    rw [List.getLast?_cons_cons, this]
+    simp only [List.length_cons, Option.some.injEq]
+    rw [Int.natCast_add, Int.add_mul]; omega
+
 end Verif.C01
